@@ -142,8 +142,8 @@ type byzRun struct {
 }
 
 func unitC07byz(e common.Env, p *common.Part) {
-	p.Rule = "Byzantine members are one or more real disc.Member instances under the same identifier with filtered inputs and re-routed outputs, following targeted plans under which honest members can still complete: partition-and-lie (one Byzantine instance per honest group, partition healed at a PRNG instant), shadow coalition (Byzantine instances that hear only each other and a phantom of a silent member), two-faced without partition, outsider and member replaying every captured transmission under their own identity, response flood (several instances of one identifier answer replayed queries with different views after the victim completed), late surplus announcer (one member more than expected joins at a PRNG instant around the moment the views converge) surplus at a decision point (the victim is held at a verif point of Synchronize while the surplus member announces itself) and view rewrite at a decision point (while the victim is held there, a second instance of a session member that only ever heard silent phantoms announces a different view of the same length to it), mirror (a member whose every transmission to X carries, under its real tag, exactly the list X itself announced or queried last) and crafted lists (its lists are replaced by permuted, duplicated, truncated, padded, empty or 30000-entry lists); distinct key = (plan, parameters, seed); non-trivial when an honest member completed or a Byzantine transmission was processed by an honest member"
-	plans := []string{"partition-and-lie", "shadow-coalition", "two-faced", "replay", "response-flood", "shadow-coalition", "partition-and-lie", "late-surplus-announcer", "surplus-at-decision-point", "surplus-at-decision-point", "view-rewrite-at-decision-point", "view-rewrite-at-decision-point", "mirror", "crafted-lists"}
+	p.Rule = "Byzantine members are one or more real disc.Member instances under the same identifier with filtered inputs and re-routed outputs, following targeted plans under which honest members can still complete: partition-and-lie (one Byzantine instance per honest group, partition healed at a PRNG instant), shadow coalition (Byzantine instances that hear only each other and a phantom of a silent member), two-faced without partition, outsider and member replaying every captured transmission under their own identity, response flood (several instances of one identifier answer replayed queries with different views after the victim completed), late surplus announcer (one member more than expected joins at a PRNG instant around the moment the views converge) surplus at a decision point (the victim is held at a verif point of Synchronize while the surplus member announces itself) and view rewrite at a decision point (while the victim is held there, a second instance of a session member that only ever heard silent phantoms announces a different view of the same length to it), mirror (a member whose every transmission to X carries, under its real tag, exactly the list X itself announced or queried last) and crafted lists (its lists are replaced by permuted, duplicated, truncated, padded, empty or 30000-entry lists) and confusable views (its announcements carry the destination's own latest list with entries replaced by values that a sloppy comparison or encoding could confuse with them: the same decimal digits split elsewhere, identifiers from the UTF-16 surrogate range, the same low byte, the same high byte, byte-swapped; its responses mirror the queried list); distinct key = (plan, parameters, seed); non-trivial when an honest member completed or a Byzantine transmission was processed by an honest member"
+	plans := []string{"partition-and-lie", "shadow-coalition", "two-faced", "replay", "response-flood", "shadow-coalition", "partition-and-lie", "late-surplus-announcer", "surplus-at-decision-point", "surplus-at-decision-point", "view-rewrite-at-decision-point", "view-rewrite-at-decision-point", "mirror", "crafted-lists", "confusable-views", "confusable-views"}
 	n := e.Pick(400, 6000)
 	for i := 0; i < n; i++ {
 		if !e.Mine(i) || p.ViolationCount() >= 3 {
@@ -350,6 +350,133 @@ func runByzPlan(plan string, idx int, rng *rand.Rand) byzRun {
 			net.sent.Delete(ph) // never transmitted towards an honest member
 		}
 		return byzRun{net: net, expected: E, note: fmt.Sprintf("expected=%d session=%v victim=%d held at %s=%v rewriting member=%d phantoms=%v announcements to the victim=%d", E, session, V, point, held, b, phantoms, atomic.LoadInt32(&told))}
+	case "confusable-views":
+		// Victim V, honest others, Byzantine b, silent configured members Z. b's announcements to X carry X's latest list in which
+		// entries are replaced by values that could be confused with them; b's responses carry exactly the list X queried.
+		// Identifier families are chosen so that confusable silent members exist in the universe.
+		family := []string{"digits", "surrogates", "low-byte", "high-byte", "byte-swap"}[(idx/2)%5]
+		var V, b uint16
+		var hs, zs []uint16
+		conf := map[uint16]uint16{} // member -> confusable silent member
+		E := 2 + rng.Intn(2)
+		switch family {
+		case "digits":
+			// V = d1, b = d2d3: the list [d1 d2d3] has the digits of [d1d2 d3]
+			d1, d2, d3 := uint16(1+rng.Intn(9)), uint16(1+rng.Intn(9)), uint16(1+rng.Intn(9))
+			V, b, E = d1, d2*10+d3, 2
+			for _, z := range []uint16{d1*10 + d2, d3} {
+				if z != V && z != b {
+					zs = append(zs, z)
+				}
+			}
+		default:
+			base := map[string]func() uint16{
+				"surrogates": func() uint16 { return uint16(0xD800 + rng.Intn(0x800)) },
+				"low-byte":   func() uint16 { return uint16(rng.Intn(0x7f00)) },
+				"high-byte":  func() uint16 { return uint16(rng.Intn(0xff00)) },
+				"byte-swap":  func() uint16 { return uint16(0x0100 + rng.Intn(0xfe00)) },
+			}[family]
+			twin := func(x uint16) uint16 {
+				switch family {
+				case "surrogates":
+					z := uint16(0xD800 + rng.Intn(0x800))
+					if rng.Intn(4) == 0 {
+						z = 0xFFFD
+					}
+					return z
+				case "low-byte":
+					return x + 0x100*uint16(1+rng.Intn(100))
+				case "high-byte":
+					return x ^ uint16(1+rng.Intn(255))
+				default:
+					return x<<8 | x>>8
+				}
+			}
+			used := map[uint16]bool{}
+			take := func() uint16 {
+				for {
+					if v := base(); !used[v] {
+						used[v] = true
+						return v
+					}
+				}
+			}
+			V, b = take(), take()
+			for len(hs) < E-2 {
+				hs = append(hs, take())
+			}
+			for _, m := range append([]uint16{V}, hs...) {
+				if z := twin(m); !used[z] {
+					used[z] = true
+					conf[m] = z
+					zs = append(zs, z)
+				}
+			}
+		}
+		universe := append(append([]uint16{V, b}, hs...), zs...)
+		sort.Slice(universe, func(i, j int) bool { return universe[i] < universe[j] })
+		net := newDnet(universe, rng)
+		var lmu sync.Mutex
+		last := map[uint16][]uint16{}
+		net.tap = func(src, dst uint16, data []byte) {
+			if src != b && len(data) >= 33 {
+				var l []uint16
+				for i := 33; i+1 < len(data); i += 2 {
+					l = append(l, uint16(data[i])|uint16(data[i+1])<<8)
+				}
+				lmu.Lock()
+				last[src] = l
+				lmu.Unlock()
+			}
+		}
+		var crafted int32
+		bi := net.add(b, "byz-confusable", false)
+		bi.rewrite = func(dst uint16, data []byte) []byte {
+			if len(data) < 33 {
+				return data
+			}
+			lmu.Lock()
+			cur := append([]uint16{}, last[dst]...)
+			lmu.Unlock()
+			if len(cur) == 0 {
+				return data
+			}
+			out := cur
+			if data[0] != 3 { // announcements and queries: the confusable variant; responses (type 3): the queried list itself
+				if family == "digits" {
+					// split the digits of the destination's list elsewhere: [d1 d2d3] -> [d1d2 d3]
+					if len(cur) == 2 && cur[0] < 10 && cur[1] >= 10 {
+						out = []uint16{cur[0]*10 + cur[1]/10, cur[1] % 10}
+					}
+				} else {
+					out = nil
+					for _, x := range cur {
+						if z, ok := conf[x]; ok && (x != dst || rng.Intn(2) == 0) {
+							out = append(out, z)
+						} else {
+							out = append(out, x)
+						}
+					}
+					if rng.Intn(2) == 0 {
+						sort.Slice(out, func(i, j int) bool { return out[i] < out[j] })
+					}
+				}
+			}
+			nb := append([]byte{}, data[:33]...)
+			for _, x := range out {
+				nb = append(nb, byte(x), byte(x>>8))
+			}
+			atomic.AddInt32(&crafted, 1)
+			return nb
+		}
+		ctx, cancel := context.WithTimeout(context.Background(), 150*time.Millisecond)
+		defer cancel()
+		for _, h := range append([]uint16{V}, hs...) {
+			net.start(ctx, &wg, net.add(h, "honest", true), topic, E, interval)
+		}
+		net.start(ctx, &wg, bi, topic, E, interval)
+		wg.Wait()
+		return byzRun{net: net, expected: E, note: fmt.Sprintf("family=%s victim=%d honest=%v byz=%d silent confusable members=%v expected=%d crafted transmissions=%d", family, V, hs, b, zs, E, atomic.LoadInt32(&crafted))}
 	case "mirror", "crafted-lists":
 		// wire layout of a disc message: type byte, 32-byte tag, 2-byte little-endian identifiers. The Byzantine member is a real
 		// instance (its tags are the real ones); only the list part of its transmissions is replaced. Format self-check: a
